@@ -347,6 +347,155 @@ def descr_num(eng, res, rule="R-DESCR-NUM"):
     return n
 
 
+# ---------------------------------------------------------------------------------------------- R-SCAN-ORDER
+def _is_empty_lit(l, pname) -> bool:
+    """literal says: the pending text `pname` is empty"""
+    if l[0] == "num":
+        _, lin, op, c = l
+        if lin == f"1*Call(Name('len'), [Name('{pname}')], [])":
+            return (op, float(c)) in (("==", 0.0), ("<=", 0.0), ("<", 1.0))
+        return False
+    if l[0] in ("complex", "opaque", "const"):
+        return False
+    key, pol = l
+    if key[0] == "truthy" and key[1] == f"Name('{pname}')":
+        return pol is False
+    if key[0] == "eq" and f"Name('{pname}')" in key and any(k in ("''", "Constant('')") for k in map(str, key)):
+        return pol is True
+    return False
+
+
+def _flush_helpers(eng, fi, L):
+    """nested helpers `def f(text)` that append a non-empty `text` to the element list on every path and return ''."""
+    from ..lits import lits
+
+    out = set()
+    for h in with_nested(fi):
+        if h is fi or len(h.params) != 1:
+            continue
+        p = h.params[0]
+        rets = [r for r in own_nodes(h.node) if isinstance(r, ast.Return)]
+        if not rets or not all(isinstance(r.value, ast.Constant) and r.value.value == "" for r in rets):
+            continue
+        hcfg = eng.flow(h).cfg
+        gen, gedges = set(), set()
+        for n in hcfg.nodes:
+            st = n.stmt
+            if n.kind == "stmt" and isinstance(st, ast.Expr) and isinstance(st.value, ast.Call) and isinstance(st.value.func, ast.Attribute) and st.value.func.attr == "append" \
+                    and isinstance(st.value.func.value, ast.Name) and st.value.func.value.id == L and len(st.value.args) == 1 and isinstance(st.value.args[0], ast.Name) and st.value.args[0].id == p:
+                gen.add(n.id)
+            elif n.kind == "test" and isinstance(st, ast.If):
+                for dst, label in hcfg.succ[n.id]:
+                    if label in ("T", "F") and any(_is_empty_lit(l, p) for l in lits(st.test, label == "T")):
+                        gedges.add((n.id, dst, label))
+        state = hcfg.must_state(gen, set(), gedges)
+        if all(state.get(hcfg.node_of(r), False) for r in rets):
+            out.add(h.node.name)
+    return out
+
+
+def scan_order(eng, res, rule="R-SCAN-ORDER"):
+    """The first pass of the token scanner keeps two buffers: the element list and the pending text between atoms.
+    Elements are in text order iff (a) whenever something other than the pending text is appended to the list, the
+    pending text is empty (it was flushed before), (b) a flush is followed by clearing the pending text, (c) the pending
+    text is flushed before the list is read, and (d) every step removes from the cursor exactly the prefix it consumed."""
+    from ..lits import lits
+
+    fi = eng.prog.func("token.SmilesToken.__init__")
+    res.unit(fi)
+    fl = eng.flow(fi)
+    cfg = fl.cfg
+    loops = [s for s in fi.node.body if isinstance(s, ast.While)]
+    if len(loops) < 2:
+        raise AnalysisError("SmilesToken.__init__: scanner loops not found")
+    scan, second = loops[0], loops[1]
+    # roles
+    appends = [c for c in ast.walk(scan) if isinstance(c, ast.Call) and isinstance(c.func, ast.Attribute) and c.func.attr == "append" and isinstance(c.func.value, ast.Name)]
+    lists = {c.func.value.id for c in appends}
+    augs = [a for a in ast.walk(scan) if isinstance(a, ast.AugAssign) and isinstance(a.op, ast.Add) and isinstance(a.target, ast.Name)]
+    pend = set()
+    for a in augs:
+        ds = fl.reaching(a.target.id, cfg.node_of(scan))
+        if any(d.kind == "assign" and isinstance(d.value, ast.Constant) and d.value.value == "" for d in ds):
+            pend.add(a.target.id)
+    cur = None
+    for l in lits(scan.test, True):
+        if l[0] == "num" and l[2] in (">", "!=", ">=") and l[1].startswith("1*Call(Name('len'), [Name('"):
+            cur = l[1].split("Name('")[2].split("'")[0]
+    if len(lists) != 1 or len(pend) != 1 or cur is None:
+        raise AnalysisError(f"SmilesToken.__init__: scanner roles not identified (lists {lists}, pending {pend}, cursor {cur})")
+    L, P = next(iter(lists)), next(iter(pend))
+    gen, kill, gedges, flushes = set(), set(), set(), set()
+    helpers = _flush_helpers(eng, fi, L)
+    for n in cfg.nodes:
+        st = n.stmt
+        if n.kind == "stmt" and isinstance(st, ast.Assign) and any(isinstance(t, ast.Name) and t.id == P for t in st.targets):
+            if isinstance(st.value, ast.Constant) and st.value.value == "":
+                gen.add(n.id)
+            elif isinstance(st.value, ast.Call) and isinstance(st.value.func, ast.Name) and st.value.func.id in helpers and len(st.value.args) == 1 and isinstance(st.value.args[0], ast.Name) and st.value.args[0].id == P:
+                gen.add(n.id)  # P = flush(P): appends P when non-empty and returns ""
+                flushes.add(n.id)
+            else:
+                kill.add(n.id)
+        elif n.kind == "stmt" and isinstance(st, ast.AugAssign) and isinstance(st.target, ast.Name) and st.target.id == P:
+            kill.add(n.id)
+        elif n.kind == "test" and isinstance(st, (ast.If, ast.While)):
+            t = cfg.test_of(st, n.id)
+            for dst, label in cfg.succ[n.id]:
+                if label in ("T", "F") and any(_is_empty_lit(l, P) for l in lits(t, label == "T")):
+                    gedges.add((n.id, dst, label))
+        if n.kind == "stmt" and isinstance(st, ast.Expr) and isinstance(st.value, ast.Call) and st.value in appends or (
+            n.kind == "stmt" and isinstance(st, ast.Expr) and isinstance(st.value, ast.Call) and isinstance(st.value.func, ast.Attribute) and st.value.func.attr == "append"
+            and isinstance(st.value.func.value, ast.Name) and st.value.func.value.id == L):
+            a = st.value.args[0] if st.value.args else None
+            if isinstance(a, ast.Name) and a.id == P:
+                flushes.add(n.id)
+    empty = cfg.must_state(gen, kill, gedges)
+    n_ob = 0
+    for c in appends:
+        a = c.args[0] if c.args else None
+        nid = cfg.node_of(c)
+        if isinstance(a, ast.Name) and a.id == P:
+            nxt = [d for d, lab in cfg.succ[nid] if lab != "exc"]
+            ok = bool(nxt) and all(d in gen for d in nxt)
+            res.ob(rule, fi, f"flush-clears@{n_ob}", "after the pending text is appended to the element list it is cleared (no text is appended twice)", c, ok)
+        else:
+            ok = empty.get(nid, False)
+            res.ob(rule, fi, f"flushed-before:{src(a)[:20]}", "an atom is appended only when the pending text is empty: text that precedes it was appended before it (elements in text order)", c, ok,
+                   "a path reaches this append with pending text not yet appended")
+        n_ob += 1
+    flushed = cfg.must_state(gen | flushes, kill, gedges)
+    nid2 = cfg.node_of(second)
+    res.ob(rule, fi, "final-flush", "when the scan ends the pending text is appended (or empty) before the element list is read", second, flushed.get(nid2, False),
+           "a path reaches the second pass with pending text not appended")
+    n_ob += 1
+    # (d) cursor advance == consumed prefix
+    for a in ast.walk(scan):
+        if not (isinstance(a, ast.Assign) and len(a.targets) == 1 and isinstance(a.targets[0], ast.Name) and a.targets[0].id == cur):
+            continue
+        v = a.value
+        okc, why = False, f"cursor assigned {src(v)[:60]}"
+        if isinstance(v, ast.Subscript) and isinstance(v.value, ast.Name) and v.value.id == cur and isinstance(v.slice, ast.Slice) and v.slice.upper is None and v.slice.lower is not None and v.slice.step is None:
+            k = v.slice.lower
+            nid = cfg.node_of(a)
+            want = {norm(ast.Subscript(ast.Name(cur, ast.Load()), ast.Slice(None, k, None), ast.Load()))}
+            if isinstance(k, ast.Constant) and k.value == 1:
+                want.add(norm(ast.Subscript(ast.Name(cur, ast.Load()), ast.Constant(0), ast.Load())))
+            uses = []
+            for st in ast.walk(scan):
+                if isinstance(st, (ast.Assign, ast.AugAssign, ast.Expr)) and cfg.has(st) and st is not a:
+                    if any(norm(x) in want for x in ast.walk(st) if isinstance(x, ast.Subscript)):
+                        sn = cfg.node_of(st)
+                        if cfg.must_pass(sn, nid) and cfg.guards(sn) <= cfg.guards(nid):
+                            uses.append(st)
+            okc = bool(uses)
+            why = f"no statement on every path to it takes {cur}[:{src(k)}]"
+        res.ob(rule, fi, f"consume:{src(v)[:40]}", "the cursor drops exactly the prefix that was consumed on that path (taken [:k], dropped [k:])", a, okc, why)
+        n_ob += 1
+    res.floor(rule, n_ob, 6)
+    return n_ob
+
+
 def check(eng, res):
     res.doc("R-BRANCH-ORDER", "push/pop of the branch stack are control-dependent on a left-to-right traversal of the text")
     res.doc("R-PREC-PROV", "slice bounds from find/rfind are computed on the sliced string (package-wide); following text stops at ')' and '['")
@@ -365,6 +514,8 @@ def check(eng, res):
     for k, want in {"none": "SINGLE", "-": "SINGLE", "=": "DOUBLE", "#": "TRIPLE", ":": "ONEANDAHALF"}.items():
         res.ob("R-BONDORDER-TABLE", init, f"prefix:{k}", f"prefix {k!r} -> BondType.{want}", init.node, tab[k].endswith("." + want), f"got {tab[k]}")
     descr_num(eng, res)
+    res.doc("R-SCAN-ORDER", "token scanner: pending text is flushed before every atom and at the end, and the cursor drops exactly the consumed prefix")
+    scan_order(eng, res)
     res.assumptions += ["RDKit's atom order for a fragment equals the textual atom order of the token (explicit [H] aside)"]
     res.not_decided += [
         "atom / bond content of tokens, descriptor positions for arbitrary nesting beyond the rules above, ring closures, multi-digit ids, float syntaxes",
